@@ -559,7 +559,7 @@ class Interp:
         repository — generators are not executed by this evaluator, so the helper-inlined view (core/inline.py turns
         `for t in _gen(...): body` into the generator's loop nest) is executed instead"""
         cache = self.__dict__.setdefault("_exec_cache", {})
-        key = fi.qualname
+        key = id(fi.node)   # per definition, not per name: every lambda is called "<lambda>"
         if key in cache:
             return cache[key]
         nd = fi.node
@@ -1463,7 +1463,16 @@ class Interp:
                 old_init = init[n]
                 if n in place:
                     ph = place[n]
-                    kind, val = self._fold(n, ph, old_init, new, sp, iv, is_for)
+                    # was the variable updated through a store at the position of this very loop (`A[k] += f(k)` for the loop
+                    # variable k)?  Then the store already speaks for every position of that axis: one update, not one per trip
+                    positional = False
+                    if iv is not None and isinstance(new, Arr):
+                        for ev_ in self.log[n_log:]:
+                            if ev_["kind"] == "store" and isinstance(ev_.get("target"), ast.Subscript) \
+                                    and isinstance(ev_["target"].value, ast.Name) and ev_["target"].value.id == n \
+                                    and any(it_[0] == "expr" and it_[1][0] == "iv" and it_[1][1] == iv for it_ in (ev_.get("idx") or ())):
+                                positional = True
+                    kind, val = self._fold(n, ph, old_init, new, sp, iv, is_for, positional=positional)
                     loop_rec["carried"][n] = dict(kind=kind, init=old_init, update=new, placeholder=ph)
                     if kind in ("unchanged", "fold", "overwrite", "pointwise"):
                         post[n] = val
@@ -1556,7 +1565,7 @@ class Interp:
             return Arr([(sp, iv)] + list(a.axes), a.elem, "list")
         return Bag(generic_elem(item), sp.size, False, None)
 
-    def _fold(self, name, ph: Expr, init: Val, new: Val, sp, iv, is_for):
+    def _fold(self, name, ph: Expr, init: Val, new: Val, sp, iv, is_for, positional=False):
         """classify the update of a numeric carried variable"""
         if isinstance(new, Sc):
             e = new.e
@@ -1581,6 +1590,11 @@ class Interp:
             return "overwrite", self.join_cond(sym.Opq("config", (), "loop-ran"), v, init)
         term = _pull(e, ph)
         init_e = init.e if isinstance(init, Sc) else init.elem
+        if term is not None and positional and isinstance(init, Arr) and is_for and iv not in sym.free_ivars(term):
+            # A[k] += f(k) over every k of the loop: position by position, each entry receives its own term once
+            if any(s0.same_size(sp) for s0, _ in init.axes):
+                return "pointwise", Arr(init.axes, sym.add(init_e, term), "nd", init.uid)
+            return "other", Unknown("positional-update-over-part-of-an-axis", (init_e,))
         if term is not None:
             if is_for and sp is not None:
                 total = sym.add(init_e, sym.Sum(iv, sp, term))
@@ -1985,6 +1999,20 @@ class Interp:
                 continue
             v = self.eval(x, env)
             if isinstance(v, Seq) and v.kind == "tuple" and len(elts) == 1 and len(v.items) >= 2 \
+                    and any(isinstance(y, ObjV) and y.tag == "slice" for y in v.items) \
+                    and all((isinstance(y, ObjV) and y.tag == "slice" and len(y.attrs.get("items") or ()) == 1) or
+                            (isinstance(y, Sc) and y.e is not None and y.e[0] not in ("cmp", "bool", "and", "or", "not"))
+                            for y in v.items):
+                # A[t] with t a tuple of slice objects / integers held in a variable or returned by a call
+                for y in v.items:
+                    if isinstance(y, ObjV):
+                        out.extend(y.attrs["items"])
+                    elif y.e[0] == "num" and float(y.e[1]).is_integer():
+                        out.append(("int", int(y.e[1])))
+                    else:
+                        out.append(("expr", y.e))
+                continue
+            if isinstance(v, Seq) and v.kind == "tuple" and len(elts) == 1 and len(v.items) >= 2 \
                     and all((isinstance(y, Arr) and not _is_bool(y.elem)) or
                             (isinstance(y, Seq) and y.items and all(isinstance(z, Sc) for z in y.items)) for y in v.items):
                 # A[idx] with idx a tuple of index arrays (np.diag_indices, np.nonzero, ...): the same as A[idx[0], idx[1]]
@@ -2088,7 +2116,8 @@ class Interp:
             fr_save = self.frames
             return self.eval(m.globals[name], {})
         if tgt.split(".")[0] in ("numpy", "scipy", "sklearn", "matplotlib", "builtins", "warnings", "itertools",
-                                 "operator", "copy", "bisect", "hopcroftkarp", "joblib", "math", "typing"):
+                                 "operator", "copy", "bisect", "hopcroftkarp", "joblib", "math", "typing", "numbers",
+                                 "functools", "collections", "dataclasses"):
             if tgt in prims.TYPES:
                 return FuncV("prim", tgt)
             return FuncV("prim", tgt)
@@ -2216,6 +2245,8 @@ class Interp:
                     d[kv.s] = vv
                 elif isinstance(kv, Sc) and kv.e[0] == "num":
                     d[kv.e[1]] = vv
+                elif isinstance(kv, Sc) and kv.e[0] == "bool":
+                    d["$True" if kv.e[1] else "$False"] = vv     # a table keyed by the outcome of a test
                 elif kv is None and isinstance(vv, DictV):
                     d.update(vv.d)
                 else:
@@ -2531,6 +2562,19 @@ class Interp:
                 return self.unknown("dict-lookup-key-not-a-table-entry", node)
             if k[0] in ("str", "int") and k[1] in base.d:
                 return base.d[k[1]]
+            if k[0] == "mask" and isinstance(k[1], Sc) and k[1].e is not None and "$True" in base.d and "$False" in base.d:
+                # table[test]: the entry for the outcome of the test
+                c = k[1].e
+                dcd = self.decide(c)
+                if dcd is not None:
+                    return base.d["$True" if dcd else "$False"]
+                a_, b_ = base.d["$True"], base.d["$False"]
+                if isinstance(a_, FuncV) or isinstance(b_, FuncV) or not isinstance(a_, Sc):
+                    out = Alt([a_, b_])
+                    if isinstance(out, Alt) and len(out.vals) == 2:
+                        out.conds = [c, sym.Not(c)]
+                    return out
+                return self.join_cond(c, a_, b_)
             if base.generic is not None:
                 return base.generic
             if base.d and k[0] not in ("str", "int"):
